@@ -186,8 +186,7 @@ def run(ctx):
     if f is not None:
         ctx.violation(f)
         return
-    if ctx.thorough:
-        fuzz_stage(ctx)
+    fuzz_stage(ctx)
 
 
 def random_shard(st, shard, nshards, payload):
@@ -273,11 +272,12 @@ def fuzz_stage(ctx):
         ctx.notes['atheris'] = 'not importable: coverage-guided stage skipped'
         return
     target = os.path.join(core.VERIF, 'vp', 'fuzz_c10.py')
+    runs = ctx.pick(5000, 150000)
     total = 0
     for mode in ('bytes', 'tokens'):
         env = dict(os.environ, PYTHONPATH=os.pathsep.join([core.VERIF, os.path.join(core.VERIF, '.deps')]),
                    VERIF_REPO=core.REPO)
-        p = subprocess.run([sys.executable, target, mode, '-runs=60000', '-seed=%d' % (ctx.seed or 1),
+        p = subprocess.run([sys.executable, target, mode, '-runs=%d' % runs, '-seed=%d' % (ctx.seed or 1),
                             '-max_len=48', '-timeout=20'], env=env, stdout=subprocess.PIPE,
                            stderr=subprocess.STDOUT, text=True, cwd=core.VERIF, timeout=1500)
         out = p.stdout
@@ -292,5 +292,5 @@ def fuzz_stage(ctx):
             ctx.notes['atheris_unreproduced'] = found[0][:300]
         done = [l for l in out.splitlines() if 'Done ' in l and ' runs' in l]
         ctx.notes['atheris_' + mode] = done[-1].strip() if done else out.strip()[-200:]
-        total += 60000
+        total += runs
     ctx.stats.add_extra('atheris_executions', total)
